@@ -65,6 +65,7 @@ def parseApi (tok : String) : Option ApiOp :=
   | ["redir", p, pm] => some (.redir (unhex p) (pm == "1"))
   | ["json", body, c] => some (.json (unhex body) (toInt c))
   | ["close"] => some .close
+  | ["mark"] => some (.note (.misc 50 []))     -- the application records: "by now I have closed the socket"
   | _ => none
 
 def parseEvent (tok : String) : Option Event :=
